@@ -11,7 +11,7 @@
 EXTENDS TL1Format
 
 CONSTANTS MaxLen,       \* maximal number of elements of a vector / dictionary
-          LongStrings   \* set of extra (long) string values
+          LongStrings   \* lengths of extra (long) string values, e.g. {253}: the last length of the short form
 
 PrimBase(p) ==
   CASE p = "uint32"  -> {Z4, <<1, 0, 0, 0>>, <<255, 255, 255, 255>>}
@@ -21,15 +21,17 @@ PrimBase(p) ==
     [] p = "uint64"  -> {Z8, <<1, 0, 0, 0, 0, 0, 0, 0>>, <<255, 255, 255, 255, 255, 255, 255, 255>>}
     [] p = "float64" -> {Z8, <<0, 0, 0, 0, 0, 0, 240, 63>>, <<1, 0, 0, 0, 0, 0, 248, 127>>, <<0, 0, 0, 0, 0, 0, 240, 127>>, <<1, 0, 0, 0, 0, 0, 0, 0>>, <<0, 0, 0, 0, 0, 0, 0, 128>>}
     [] p = "byte"    -> {<<0>>, <<1>>, <<255>>}
-    [] p = "string"  -> {<<>>, <<97>>, <<97, 98, 99, 100>>, <<255, 0>>, <<226, 130, 172, 34, 92, 10>>, <<97, 226, 128, 168, 9, 98>>} \cup LongStrings
+    [] p = "string"  -> {<<>>, <<97>>, <<97, 98, 99, 100>>, <<255, 0>>, <<226, 130, 172, 34, 92, 10>>, <<97, 226, 128, 168, 9, 98>>} \cup {[i \in 1..n |-> 97] : n \in LongStrings}
     [] OTHER         -> BOOLEAN
 PrimDom(p) == PrimBase(p) \cup ExtraVals(p)   \* ExtraVals: per-run extra leaf values (SchemaData), e.g. C34's byte-class strings
 
 (* dictionary keys: a small ordered domain per key type *)
 KeyDom(kt) ==
   CASE kt = "string" -> <<<<>>, <<97>>, <<97, 98>>, <<98>>>>
-    [] kt \in {"int32", "uint32"} -> <<Z4, <<1, 0, 0, 0>>, <<2, 0, 0, 0>>, <<0, 1, 0, 0>>>>
-    [] kt \in {"int64", "uint64"} -> <<Z8, <<1, 0, 0, 0, 0, 0, 0, 0>>, <<2, 0, 0, 0, 0, 0, 0, 0>>, <<0, 1, 0, 0, 0, 0, 0, 0>>>>
+    \* the second key is the most negative signed value (the largest unsigned one with the top bit):
+    \* it must sort first for signed keys, and it is 2^31 / 2^63 away from its neighbours
+    [] kt \in {"int32", "uint32"} -> <<Z4, <<0, 0, 0, 128>>, <<1, 0, 0, 0>>, <<0, 1, 0, 0>>>>
+    [] kt \in {"int64", "uint64"} -> <<Z8, <<0, 0, 0, 0, 0, 0, 0, 128>>, <<1, 0, 0, 0, 0, 0, 0, 0>>, <<0, 1, 0, 0, 0, 0, 0, 0>>>>
     [] kt = "byte" -> <<<<0>>, <<1>>, <<2>>, <<200>>>>
     [] OTHER -> <<>>
 
